@@ -556,6 +556,33 @@ func c01Worker(sh *explore.Shard) {
 	if sh.Mine(idx) {
 		c01NoRefs(sh)
 	}
+	idx++
+	if sh.Mine(idx) {
+		c01AmbiguousRoots(sh)
+	}
+	// a tree with very many subdirectory entries, delivered before and after its
+	// subtree: every object is still counted once (entry counts around 2^15 and 2^16)
+	for _, wide := range []int{32767, 32768, 65535, 65536, 66000} {
+		idx++
+		if !sh.Mine(idx) || sh.Expired() {
+			continue
+		}
+		r := mrepo.New()
+		b := r.AddBlob([]byte("x"))
+		sub := r.AddTree([]mrepo.Entry{{Mode: 0o100644, Name: "f", Child: b}})
+		es := make([]mrepo.Entry, 0, wide)
+		for i := 0; i < wide; i++ {
+			es = append(es, mrepo.Entry{Mode: 0o40000, Name: fmt.Sprintf("d%06d", i), Child: sub})
+		}
+		c := r.AddCommit(mrepo.CommitSpec{Tree: r.AddTree(es), Time: gen.T0, Message: "wide\n"})
+		r.SetRef("refs/heads/main", c)
+		sc := &gen.Scenario{Repo: r, Desc: fmt.Sprintf("tree with %d subdirectory entries", wide)}
+		l := defaultListing(sc)
+		n.beginScenario()
+		n.one(sc, l.IDs, sizes.NameStyleNone, false, nil)
+		n.one(sc, reverseNonCommits(r, l), sizes.NameStyleNone, false, nil)
+		sh.C.Nontrivial++
+	}
 	mixedScenarios(sh.Tier, func(r *mrepo.Repo, special map[string]mrepo.ID, desc string) bool {
 		idx++
 		if !sh.Mine(idx) {
@@ -647,6 +674,58 @@ func c01NoRefs(sh *explore.Shard) {
 			}
 		}
 	}
+}
+
+// c01AmbiguousRoots: ROOT arguments that are short names of both a branch and a
+// tag pointing at different objects (git prefers the tag), through the real
+// binary with real git: the census is that of the object git resolves the name to.
+func c01AmbiguousRoots(sh *explore.Shard) {
+	r, ids := c08Repo()
+	dir := scratch("c01a")
+	defer os.RemoveAll(dir)
+	gd := filepath.Join(dir, "repo.git")
+	if err := realgit.Materialise(r, gd); err != nil {
+		return
+	}
+	for _, name := range []string{"v1", "other", "heads/v1", "tags/other", "main"} {
+		out, _, exit := realgit.Run(gd, nil, "rev-parse", "--verify", "--end-of-options", name)
+		if exit != 0 {
+			continue
+		}
+		oid := strings.TrimSpace(string(out))
+		for _, extra := range [][]string{nil, {"--include", "refs/heads/main"}} {
+			args := append(append([]string{"--json", "--no-progress"}, extra...), name)
+			res := cli.Run(gd, "", nil, 60*time.Second, args...)
+			sh.C.Evals++
+			sh.C.Nontrivial++
+			sh.C.Add("cli_real_runs", 1)
+			mk := func(msg string) {
+				sh.C.Violate(explore.Violation{Property: "C01", Class: "cli-mismatch", Msg: fmt.Sprintf("ROOT %q (git resolves it to %s), args %v: %s", name, oid[:7], args, msg),
+					Case: caseJSON(sh.Index(), map[string]any{"args": args}), Detail: r.Describe()})
+			}
+			if res.Exit != 0 {
+				mk(fmt.Sprintf("exit %d: %s", res.Exit, tailBytes(res.Stderr, 300)))
+				continue
+			}
+			nums, _, err := parseV1(res.Stdout)
+			if err != nil {
+				mk("invalid JSON")
+				continue
+			}
+			walk := map[string]bool{}
+			if extra != nil {
+				walk["refs/heads/main"] = true
+			}
+			sc := &gen.Scenario{Repo: r, WalkRefs: walk, Explicit: [][2]string{{name, oid}}}
+			want := oracle.Compute(r, sc.Roots()).Numbers()
+			for _, k := range censusKeys {
+				if nums[k] != want[k] {
+					mk(fmt.Sprintf("%s: reported %d, true %d", k, nums[k], want[k]))
+				}
+			}
+		}
+	}
+	_ = ids
 }
 
 func keys(m map[string]bool) []string {
